@@ -36,7 +36,7 @@ CHECKS = {
             "Trusts the simulated network's latency bound (strict), the wire codec, synctest. Traffic attempted on an already shut down transport never reached the network and is ignored.",
             "absence monitors on wire tap, dumps, logs, events (virtual time)", "DESIGN.md §3 C04"),
     "C03": ("E1-simnet (fault-scenario engine)", "exploration",
-            "Runtime monitor of bounded progress in virtual time: crash / hung-process scenarios on real clusters under loss and config variation; an oracle over dump polls and event logs checks for every (survivor, crashed) pair that the leave event arrives within the configuration-derived bound after the last time the survivor could have heard the member alive; a log-based pace monitor checks that every failing probe is given up by its slowest awareness-scaled deadline; a tap-based schedule monitor checks in fault-free stable runs that per-peer probe counts differ by at most 2 and nobody probes itself; an in-process stall detector turns a wedged node (mutex-parked goroutines for minutes) into a violation. The unbounded 'eventually' is restated as this bound; nothing is claimed beyond the executions produced.",
+            "Runtime monitor of bounded progress in virtual time: crash / hung-process scenarios on real clusters under loss and config variation; an oracle over dump polls and event logs checks for every (survivor, crashed) pair that the leave event arrives within the configuration-derived bound after the last time the survivor could have heard the member alive; a log-based pace monitor checks that every failing probe is given up by its slowest awareness-scaled deadline; a tap-based schedule monitor checks in fault-free stable runs that per-peer probe counts differ by at most 2 and nobody probes itself, and in the crash runs a wire monitor checks that once a survivor has dropped a crashed member it sends it no further direct pings except relays requested by others; an in-process stall detector turns a wedged node (mutex-parked goroutines for minutes) into a violation. The unbounded 'eventually' is restated as this bound; nothing is claimed beyond the executions produced.",
             "Trusts synctest virtual time, the bound formula (loose by design), 200 ms poll granularity for alive-acceptance tracking (conservative direction), the real-time stall threshold of 90 s (only used to detect a wedged process).",
             "bounded-liveness oracle + pace/schedule monitors on tap and logs (virtual time)", "DESIGN.md §3 C03"),
     "C05": ("E1-simnet (fault-scenario engine)", "exploration",
